@@ -25,7 +25,10 @@ RULE = ('source texts: (a) sentences derived at random from the grammar prolog.g
         'single-edit corruption class of such texts: token deletion / insertion / duplication / swap, truncation at token '
         'boundaries and inside tokens, character deletion / replacement, foreign characters (# " { NUL non-ASCII) outside and '
         'inside quotes, unterminated quoted atoms (at the end and at a clause boundary), trailing garbage after the last full '
-        'stop, garbage before the first clause, a comment without line break at the end, a missing final full stop. '
+        'stop, garbage before the first clause, a comment without line break at the end, a missing final full stop; '
+        '(d) quoted atoms that span lines, whose lines start with what means something outside an atom (% /* // # :- . , brackets, '
+        'quotes, clause text) and end with every kind of line end, comments that contain quotes, and the single edits placed directly '
+        'before / after a quoted atom, on its quotes, and at the line boundaries inside it. '
         'Non-trivial: a corruption of a text with >= 2 clauses, or an accepted text with >= 2 clauses. Distinct by hash of the text.')
 TRUSTED_BASE = [
     'Coq 8.16.1 kernel (coqc); vm_compute for the in-Coq evaluation of the model on every case',
